@@ -6,11 +6,13 @@ import (
 	"fmt"
 	"hash/fnv"
 	"os"
+	"os/exec"
 	"path/filepath"
 	"regexp"
 	"runtime"
 	"sort"
 	"strconv"
+	"strings"
 	"sync"
 	"sync/atomic"
 	"time"
@@ -227,22 +229,38 @@ func (r *Run) Violations() int { r.mu.Lock(); defer r.mu.Unlock(); return r.nvio
 // returns the process exit code.
 func (r *Run) Finish() int {
 	dir := VerifDir()
+	if os.Getenv("VERIF_RERUN") == "1" {
+		// second, independent execution of the whole exploration (see below): report raw findings only
+		r.mu.Lock()
+		per := map[string]int{}
+		for k, v := range r.perScen {
+			per[k] = v
+		}
+		r.mu.Unlock()
+		b, _ := json.Marshal(per)
+		fmt.Println("RERUN-RESULT " + string(b))
+		return 0
+	}
 	_ = os.MkdirAll(filepath.Join(dir, "evidence"), 0o755)
 	_ = os.MkdirAll(filepath.Join(dir, "replays"), 0o755)
 
 	confirmed := 0
 	var lines []string
+	var unconfirmed []*Violation
+	var unconfirmedMsg []string
 	for i := range r.viol {
 		v := &r.viol[i]
 		if rp := r.scen[v.Scenario]; rp != nil {
 			o1, b1 := rp(v.Case)
 			o2, b2 := rp(v.Case)
 			if o1 != o2 || b1 != b2 {
-				r.Broken = append(r.Broken, fmt.Sprintf("replay of %s/%s is not deterministic: %q/%q vs %q/%q", v.Scenario, v.Sig, o1, b1, o2, b2))
+				unconfirmed = append(unconfirmed, v)
+				unconfirmedMsg = append(unconfirmedMsg, fmt.Sprintf("replay of %s/%s is not deterministic in isolation: %q/%q vs %q/%q", v.Scenario, v.Sig, trunc(o1, 80), trunc(b1, 80), trunc(o2, 80), trunc(b2, 80)))
 				continue
 			}
 			if b1 == "" {
-				r.Broken = append(r.Broken, fmt.Sprintf("violation %s/%s did not reproduce on replay (obs %q)", v.Scenario, v.Sig, o1))
+				unconfirmed = append(unconfirmed, v)
+				unconfirmedMsg = append(unconfirmedMsg, fmt.Sprintf("violation %s/%s did not reproduce on replay in isolation (obs %q)", v.Scenario, v.Sig, trunc(o1, 120)))
 				continue
 			}
 		}
@@ -257,6 +275,37 @@ func (r *Run) Finish() int {
 		}
 		if len(lines) <= 3 {
 			fmt.Printf("  scenario=%s sig=%s\n  case=%s\n  want=%s\n  got=%s\n", v.Scenario, v.Sig, trunc(string(v.Case), 600), trunc(v.Want, 300), trunc(v.Got, 300))
+		}
+	}
+	// Failures that do not reproduce in isolation may depend on the call history of the whole
+	// exploration (state hidden in the code under test).  The replay for those is a second,
+	// independent execution of the complete exploration in a fresh process: a scenario that
+	// fails again is confirmed; one that does not is a harness problem, not a violation.
+	if len(unconfirmed) > 0 {
+		again := r.rerunWhole()
+		for _, v := range unconfirmed {
+			if again[v.Scenario] > 0 {
+				confirmed++
+				name := fmt.Sprintf("%s-%016x.json", r.ID, H("whole-run|"+v.Scenario+"|"+v.Sig))
+				p := filepath.Join(dir, "replays", name)
+				rec := map[string]any{"property": r.ID, "scenario": v.Scenario, "signature": v.Sig, "case": v.Case, "want": v.Want, "got": v.Got,
+					"replay": "whole-run", "note": "not reproducible in isolation (history-dependent); confirmed by a second complete execution in a fresh process, which failed in the same scenario " + fmt.Sprint(again[v.Scenario]) + " time(s)"}
+				b, _ := json.MarshalIndent(rec, "", " ")
+				_ = os.WriteFile(p, b, 0o644)
+				if len(lines) < 10 {
+					lines = append(lines, fmt.Sprintf("VIOLATION property=%s replay=%s", r.ID, p))
+				}
+				if len(lines) <= 3 {
+					fmt.Printf("  scenario=%s sig=%s (history-dependent; confirmed by whole-run replay)\n  case=%s\n  want=%s\n  got=%s\n", v.Scenario, v.Sig, trunc(string(v.Case), 600), trunc(v.Want, 300), trunc(v.Got, 300))
+				}
+			}
+		}
+		if confirmed == 0 {
+			r.Broken = append(r.Broken, unconfirmedMsg...)
+		} else {
+			for _, m := range unconfirmedMsg {
+				fmt.Fprintln(os.Stderr, "note:", m)
+			}
 		}
 	}
 	nviol := r.nviol
@@ -405,4 +454,23 @@ func Par(n int, f func(i int)) {
 		}()
 	}
 	wg.Wait()
+}
+
+// rerunWhole executes the same check again in a fresh process and returns the number of
+// failures it recorded per scenario.
+func (r *Run) rerunWhole() map[string]int {
+	out := map[string]int{}
+	self, err := os.Executable()
+	if err != nil {
+		return out
+	}
+	cmd := exec.Command(self, r.ID)
+	cmd.Env = append(os.Environ(), "VERIF_RERUN=1")
+	b, _ := cmd.Output()
+	for _, l := range strings.Split(string(b), "\n") {
+		if strings.HasPrefix(l, "RERUN-RESULT ") {
+			_ = json.Unmarshal([]byte(l[13:]), &out)
+		}
+	}
+	return out
 }
